@@ -37,7 +37,7 @@ CHECKS = {
     ),
     "C05": (
         "model_checking",
-        "exhaustive enumeration of (D,dt) pairs x all inflow histories up to a length bound x outflow levels on the real simulator, compared bin-by-bin with a reference cohort model; cohort inequalities checked in every state",
+        "exhaustive enumeration of (D,dt) pairs x all inflow histories up to a length bound x outflow levels (and calibration factors on the duration) on the real simulator, compared bin-by-bin with a reference cohort model; cohort inequalities checked in every state",
         "All inflow histories over a 3-level alphabet up to the length bound are driven through timed compartments for every (D,dt) pair of the alphabet (including D/dt integer only up to rounding error); each trace of the reference cohort model is replayed against the implementation and the property's inequalities are evaluated at every index.",
         "Trusted: mc/refsim.py cohort semantics (documentation reading), spec builder.",
         "5/C05",
@@ -114,7 +114,7 @@ CHECKS = {
     ),
     "C20": (
         "model_checking",
-        "exhaustive enumeration of ordered output selections x population arguments x aggregation options x transforms on the real PlotData against singleton calls; explicit-state BFS over sequences of reporting calls with full-snapshot purity invariant; exhaustive enumeration of nested cascades",
+        "exhaustive enumeration of ordered output selections x population arguments x aggregation options x transforms on the real PlotData against singleton calls; every time bin compared across all sub-lists of the requested bin edges; explicit-state BFS over sequences of reporting calls with full-snapshot purity invariant; exhaustive enumeration of nested cascades",
         "Every ordered selection of up to 3/4 outputs of an 8-entry alphabet is requested under every population argument, aggregation option and time transform and each series compared with the singleton call; all nested cascade chains over the characteristic lattice are evaluated from results (monotone) and from data (sum of entries); every sequence of up to 3 reporting calls is executed and the result's full structural snapshot compared after each call.",
         "One generated model family; outputs alphabet listed in mc/props/c20.py.",
         "5/C20",
@@ -142,7 +142,7 @@ CHECKS = {
     ),
     "C18": (
         "exploration",
-        "exhaustive single-rule mutation: every catalogue rule applied at every applicable site of generated and atomica-written workbooks, each with a known verdict, against the real readers; all generated and library files must load, give a blank databook that reads back and run",
+        "exhaustive single-rule mutation: every catalogue rule applied at every applicable site of generated and atomica-written workbooks, each with a known verdict, against the real readers, each both as a file and as the same tables put into an already validated framework object that is validated again; all generated and library files must load, give a blank databook that reads back and run",
         "Valid files in two writer styles (atomica's and an independent user-style writer) and every library file are loaded and run; each catalogue rule (delete required sheet/column, blank optional column, undefined / duplicate / reserved names, wrong units, self-referencing / cyclic / unsupported / malformed functions, un-nested cascade, timed-parameter misuse, missing population data, unit mismatch, unknown populations / parameters / programs, missing unit cost) is broken at every site where it can be broken and the reader must answer with the dedicated error (reject) or still load and run (accept).",
         "Validator totality is approached by the catalogue x all sites, not decided for arbitrary bytes; verdicts come from the catalogue.",
         "5/C18",
